@@ -335,3 +335,25 @@ mk('const_use', ['a%'],
    head=[('const', 'k%', I(7)),
          ('const', 'big&', B('*', LG(300), LG(300)))],
    family='const')
+
+# ------------------------------------------------------------------ INPUT
+mk('input_two_then_gosub', [],
+   [('input', None, ';', [var('a%'), var('b&')]),
+    ('gosub', 'show'), P(S('back')), ('end',),
+    ('label', 'show'), P(var('a%'), ';', var('b&')), ('return',)],
+   lines=1, tail_lines=['1,1'], family='input', budget=600)
+mk('input_prompt_str', [],
+   [('input', 'Name', ',', [var('n$'), var('k%')]),
+    P(var('n$'), ';', var('k%')),
+    ('callsub', 'after', []), P(S('end'))],
+   subs=[Sub('after', 'sub', [], [P(S('in sub'))])],
+   lines=1, tail_lines=['x,1'], family='input', budget=600)
+mk('input_into_elem_field', [],
+   [('input', 'v', ';', [('idx', 'arr%', [I(1)]),
+                         ('fld', var('p'), ['y'], '&')]),
+    P(('idx', 'arr%', [I(0)]), ';', ('idx', 'arr%', [I(1)]), ';',
+      ('fld', var('p'), ['x'], '%'), ';', ('fld', var('p'), ['y'], '&'))],
+   head=[('dim', 'dim', [('arr%', [(I(0), I(1))], None)]),
+         ('dim', 'dim', [('p', None, 'pt')])],
+   types=[('pt', [('x%', None), ('y&', None)])],
+   lines=1, tail_lines=['1,1'], family='input', budget=600)
